@@ -150,11 +150,14 @@ func (f *flowRun) callerReq(method string, d *flowDlg, toTag string, branch stri
 	if f.cfg.CallerTCP {
 		tr = "TCP"
 	}
+	freshBranch := branch == ""
 	if branch == "" {
 		branch = f.branch()
 	}
 	vias := []string{"SIP/2.0/" + tr + " " + flowCaller + ";branch=" + branch + ";rport"}
-	if f.cfg.TwoVias {
+	// CANCEL and the ACK for a non-2xx are hop-by-hop: they carry the top Via of the INVITE only (RFC 3261 9.1, 17.1.1.3)
+	hopByHop := method == "CANCEL" || (method == "ACK" && !freshBranch)
+	if f.cfg.TwoVias && !hopByHop {
 		up := "SIP/2.0/UDP 10.2.2.2:5060;branch=" + branch + "up"
 		if f.cfg.Joined {
 			vias = []string{vias[0] + ", " + up}
